@@ -446,3 +446,146 @@ Proof.
   intros e id out size tm E. apply parse_entry_strict in E.
   destruct E as (_ & hid & hout & ss & st & _ & _ & _ & _ & _ & _ & _ & L & _ & R & _). split; [exact L|lia].
 Qed.
+
+(* ---- entries that differ only in their timestamps, and mixtures of them *)
+Lemma val_bound : forall s, all_digits s -> 0 <= val s < 10 ^ Z.of_nat (length s).
+Proof.
+  induction s as [|c s IH] using rev_ind; intros Hd.
+  - cbn. lia.
+  - apply Forall_app in Hd as [Hs Hc]. inversion Hc as [|? ? (v & Hv & Hr) _]; subst.
+    rewrite val_app, app_length. cbn [length]. specialize (IH Hs).
+    assert (val [c] = v) as Ec by (unfold val; cbn [fold_left]; unfold dval; rewrite Hv; lia).
+    rewrite Ec. change (10 ^ Z.of_nat 1) with 10. rewrite Nat2Z.inj_add. change (Z.of_nat 1) with 1.
+    rewrite Z.pow_add_r by lia. change (10 ^ 1) with 10. lia.
+Qed.
+
+Lemma parse_int_digit_string : forall c s, all_digits (c :: s) -> val (c :: s) < int64_lim ->
+  parse_int (c :: s) = Some (val (c :: s)).
+Proof.
+  intros c s Hd Hlt. inversion Hd as [|? ? (v & Hv & _) _]; subst.
+  unfold parse_int. destruct (digit_not_sign c v Hv) as (E1 & E2 & _). rewrite E1, E2. cbn [orb].
+  rewrite parse_digits_val by exact Hd.
+  replace (0 * 10 ^ Z.of_nat (length (c :: s)) + val (c :: s)) with (val (c :: s)) by lia.
+  apply Z.ltb_lt in Hlt. rewrite Hlt. reflexivity.
+Qed.
+
+Lemma digit_one : forall c, digit_val c = Some 1 -> c = x31.
+Proof. intros c. destruct c; cbn; intros E; try discriminate; reflexivity. Qed.
+
+Lemma val_cons : forall c s, val (c :: s) = dval c * 10 ^ Z.of_nat (length s) + val s.
+Proof.
+  intros c s. change (c :: s) with ([c] ++ s). rewrite val_app. unfold val at 1. cbn [fold_left]. lia.
+Qed.
+
+(* a timestamp between 10^18 and 2*10^18 is written as '1' followed by 18 digits *)
+Lemma digits_t19 : forall t, 10 ^ 18 <= t < 2 * 10 ^ 18 ->
+  exists ds, digits t = x31 :: ds /\ length ds = 18%nat /\ all_digits ds.
+Proof.
+  intros t Ht. destruct (digits_spec t) as (Hd & Hv & Hl & Hlo & (c & r & E & v & Hc)); [lia|].
+  pose proof (val_bound _ Hd) as Hb. rewrite Hv in Hb.
+  assert (length (digits t) = 19%nat) as L19.
+  { destruct Hlo as [Hz|Hlo]; [lia|].
+    destruct (lt_eq_lt_dec (length (digits t)) 19) as [[L|L]|L]; [|exact L|].
+    - assert (10 ^ Z.of_nat (length (digits t)) <= 10 ^ 18) by (apply Z.pow_le_mono_r; lia). lia.
+    - assert (10 ^ 19 <= 10 ^ (Z.of_nat (length (digits t)) - 1)) by (apply Z.pow_le_mono_r; lia).
+      assert (10 ^ 19 = 10 * 10 ^ 18) by reflexivity. lia. }
+  rewrite E in L19, Hd, Hv. cbn [length] in L19.
+  inversion Hd as [|x l (v' & Hv' & Hr') Hds]; subst x l.
+  rewrite val_cons in Hv. assert (length r = 18%nat) as L18 by lia. rewrite L18 in Hv.
+  pose proof (val_bound _ Hds) as Hbr. rewrite L18 in Hbr.
+  unfold dval in Hv. rewrite Hv' in Hv. change (Z.of_nat 18) with 18 in *.
+  assert (v' = 1) by nia. subst v'. apply digit_one in Hv'. subst c.
+  exists r. auto.
+Qed.
+
+Definition mixb (j : nat) (cur old : bytes) : bytes := firstn j cur ++ skipn j old.
+
+Lemma mixb_prefix : forall j (P A B : bytes), mixb j (P ++ A) (P ++ B) = P ++ mixb (j - length P) A B.
+Proof.
+  intros j P A B. unfold mixb. destruct (le_lt_dec j (length P)) as [L|L].
+  - replace (j - length P)%nat with 0%nat by lia. cbn [firstn skipn app].
+    rewrite firstn_app, skipn_app. replace (j - length P)%nat with 0%nat by lia. cbn [firstn skipn].
+    rewrite app_nil_r, app_assoc, firstn_skipn. reflexivity.
+  - rewrite firstn_app, skipn_app. rewrite firstn_all2 by lia. rewrite skipn_all2 by lia.
+    cbn [app]. rewrite <- app_assoc. reflexivity.
+Qed.
+
+Lemma mixb_suffix : forall j (A B S : bytes), length A = length B ->
+  mixb j (A ++ S) (B ++ S) = mixb j A B ++ S.
+Proof.
+  intros j A B S Hl. unfold mixb. destruct (le_lt_dec j (length A)) as [L|L].
+  - rewrite firstn_app, skipn_app. replace (j - length A)%nat with 0%nat by lia.
+    replace (j - length B)%nat with 0%nat by lia. cbn [firstn skipn]. rewrite app_nil_r, <- app_assoc. reflexivity.
+  - rewrite firstn_app, skipn_app. rewrite !(firstn_all2 A) by lia. rewrite !(skipn_all2 B) by lia.
+    cbn [app]. rewrite Hl. rewrite app_nil_r, <- app_assoc, firstn_skipn. reflexivity.
+Qed.
+
+Lemma Forall_firstn_b : forall (P : byte -> Prop) n l, Forall P l -> Forall P (firstn n l).
+Proof. intros P n l Hf. revert n. induction Hf; intros [|n]; cbn; constructor; auto. Qed.
+Lemma Forall_skipn_b : forall (P : byte -> Prop) n l, Forall P l -> Forall P (skipn n l).
+Proof. intros P n l Hf. revert n. induction Hf; intros [|n]; cbn; auto. Qed.
+
+Lemma mixb_digits : forall j a b, all_digits a -> all_digits b -> length a = length b ->
+  all_digits (mixb j a b) /\ length (mixb j a b) = length a.
+Proof.
+  intros j a b Ha Hb Hl. unfold mixb. split.
+  - apply Forall_app. split; [apply Forall_firstn_b; exact Ha|apply Forall_skipn_b; exact Hb].
+  - rewrite app_length, firstn_length, skipn_length. lia.
+Qed.
+
+(* an entry whose time field is any 20-byte string that ParseInt accepts after the leading spaces *)
+Lemma parse_entry_time_field : forall id out size st t',
+  length id = hash_size_n -> length out = hash_size_n -> 0 <= size < int64_lim ->
+  length st = time_width_n -> parse_int (skip_spaces st) = Some t' -> 0 <= t' ->
+  parse_entry (entry_shape x76 x31 SP (hex id) SP (hex out) SP (pad_left size_width_n (fmt_int size)) SP st NL) id
+  = Some (out, size, t').
+Proof.
+  intros id out size st t' Li Lo Hs Lst Hp Ht.
+  assert (length (digits size) <= 19)%nat as D1 by (apply digits_length_int64; exact Hs).
+  assert (19 <= size_width_n)%nat as W1 by (vm_compute; lia).
+  rewrite parse_entry_shape.
+  - rewrite !beq_refl. cbn [andb]. unfold parse_fields.
+    rewrite !hex_decode_hex, bytes_eqb_refl. cbn [negb].
+    rewrite parse_padded by assumption. rewrite Hp.
+    destruct (size <? 0) eqn:E1; [apply Z.ltb_lt in E1; lia|].
+    destruct (t' <? 0) eqn:E2; [apply Z.ltb_lt in E2; lia|]. reflexivity.
+  - rewrite hex_length, Li. symmetry; apply hex_size_hash.
+  - rewrite hex_length, Lo. symmetry; apply hex_size_hash.
+  - apply pad_left_length. rewrite fmt_int_nonneg by lia. lia.
+  - exact Lst.
+Qed.
+
+(* a mixture, at any byte boundary, of two entries that differ only in their (19-digit,
+   leading 1) timestamps is again accepted, with the same output and size *)
+Lemma mix_entries_parse : forall id out size t1 t0 j,
+  length id = hash_size_n -> length out = hash_size_n -> 0 <= size < int64_lim ->
+  10 ^ 18 <= t1 < 2 * 10 ^ 18 -> 10 ^ 18 <= t0 < 2 * 10 ^ 18 ->
+  exists t', 10 ^ 18 <= t' < 2 * 10 ^ 18 /\
+    parse_entry (mixb j (encode_entry id out size t1) (encode_entry id out size t0)) id = Some (out, size, t').
+Proof.
+  intros id out size t1 t0 j Li Lo Hs H1 H0.
+  destruct (digits_t19 t1 H1) as (d1 & E1 & L1 & A1). destruct (digits_t19 t0 H0) as (d0 & E0 & L0 & A0).
+  assert (forall t ds, 0 <= t -> digits t = x31 :: ds -> length ds = 18%nat ->
+            pad_left time_width_n (fmt_int t) = SP :: x31 :: ds) as Hpad.
+  { intros t ds Ht E L. rewrite fmt_int_nonneg by exact Ht. rewrite E. unfold pad_left. cbn [length]. rewrite L. reflexivity. }
+  rewrite !encode_entry_eq. rewrite (Hpad t1 d1), (Hpad t0 d0) by (assumption || lia).
+  set (P := x76 :: x31 :: SP :: hex id ++ SP :: hex out ++ SP :: pad_left size_width_n (fmt_int size) ++ [SP; SP; x31]).
+  assert (forall ds, entry_shape x76 x31 SP (hex id) SP (hex out) SP (pad_left size_width_n (fmt_int size)) SP (SP :: x31 :: ds) NL
+                     = P ++ ds ++ [NL]) as Esh.
+  { intros ds. unfold entry_shape, P. cbn [app]. repeat (rewrite <- app_assoc; cbn [app]). reflexivity. }
+  rewrite !Esh. rewrite mixb_prefix. rewrite mixb_suffix by congruence.
+  destruct (mixb_digits (j - length P) d1 d0 A1 A0) as [Am Lm]; [congruence|].
+  set (m := mixb (j - length P) d1 d0) in *.
+  rewrite <- Esh.
+  assert (all_digits (x31 :: m)) as Ad.
+  { constructor; [exists 1; split; [reflexivity|lia]|exact Am]. }
+  assert (val (x31 :: m) = 10 ^ 18 + val m) as Ev.
+  { rewrite val_cons. rewrite Lm, L1. reflexivity. }
+  pose proof (val_bound _ Am) as Hb. rewrite Lm, L1 in Hb. change (Z.of_nat 18) with 18 in Hb.
+  exists (val (x31 :: m)). split; [lia|].
+  apply parse_entry_time_field; auto.
+  - cbn [length]. rewrite Lm, L1. reflexivity.
+  - cbn [skip_spaces]. rewrite beq_refl. change (beq x31 SP) with false. cbv iota.
+    apply parse_int_digit_string; [exact Ad|]. unfold int64_lim. lia.
+  - lia.
+Qed.
